@@ -133,10 +133,21 @@ impl Prop for C10 {
           *c += 1;
         }
         // the failing statement is of several kinds (errors with and without source tokens)
-        if failing && f == fail_at { let at = rng.below(stmts.len() as u64 + 1) as usize; stmts.insert(at, rng.pick(&["oops := undefinedname + 1", "oops := 1 + \"a\"", "oops := [1 2] + [1 2 3]", "oops := math/sin(\"a\")", "undefinedname = 3"]).to_string()); }
+        if failing && f == fail_at {
+          let at = rng.below(stmts.len() as u64 + 1) as usize;
+          if rng.chance(1, 3) {
+            // statements that do not even parse (the error is detected at the end of the line or inside it); never the first statement of the fence
+            stmts.insert(at.max(1), rng.pick(&["oops := s0 +", "oops := (s0 + ", "oops := s0 + * 2", "oops := s0 -", "oops := s0 &&", "oops := (s0"]).to_string());
+          } else {
+            stmts.insert(at, rng.pick(&["oops := undefinedname + 1", "oops := 1 + \"a\"", "oops := [1 2] + [1 2 3]", "oops := math/sin(\"a\")", "undefinedname = 3"]).to_string());
+          }
+        }
         // one named fence in four is floated left or right (the float wrapper must not change what the fence does)
         let float = match rng.below(8) { 0 => "<<: ", 1 => ":>> ", _ => "" };
-        blocks.push(format!("{}```mech:{}\n{}\n```", float, name, stmts.join("\n")));
+        // the three documented spellings of the fence tag prefix name the same namespace
+        let prefix = match rng.below(6) { 0 => "mec", 1 => "🤖", _ => "mech" };
+        let sigil = if rng.chance(1, 6) { "~~~" } else { "```" };
+        blocks.push(format!("{}{}{}:{}\n{}\n{}", float, sigil, prefix, name, stmts.join("\n"), sigil));
         per_ns.entry(name).or_default().push(stmts);
       }
       let k = main.len(); let st = format!("m{} := {}", k, 100 + k); blocks.push(st.clone()); main.push(st);
